@@ -169,8 +169,11 @@ Proof.
     split; auto; try discriminate; try (rewrite <- E; apply set_section_id).
 Qed.
 
-Lemma checked_add16_some a b c : checked_add16 a b = Some c -> c = (a + b)%N.
-Proof. unfold checked_add16. destruct (65535 <? a + b)%N; intros H; inversion H; auto. Qed.
+Lemma checked_add16_some a b c : checked_add16 a b = Some c -> c = (a + b)%N /\ (c <= 65535)%N.
+Proof.
+  unfold checked_add16. destruct (65535 <? a + b)%N eqn:E; intros H; inversion H; subst.
+  apply N.ltb_ge in E. auto.
+Qed.
 
 Lemma FLay_add w y A s w2 c rsn asn : FLay w y A ->
   match s with
@@ -184,8 +187,8 @@ Lemma FLay_add w y A s w2 c rsn asn : FLay w y A ->
   Forall2 rr_desc2 rsn asn -> checked_add16 (sec_count s w2) (N.of_nat (length asn)) = Some c ->
   FLay (set_sec_count s w2 c) (mkLay (y_qs y) (y_rrs y ++ rsn)) (add_rrs A s asn).
 Proof.
-  intros [Fq Fr Fm Cq Ca Cn Cr Fs] Hs Es Em Eq Ea En Er Ee Et Hd Hc.
-  apply checked_add16_some in Hc.
+  intros [Fq Fr Fm Cq Ca Cn Cr [Bq [Ba [Bn Br]]] Fs] Hs Es Em Eq Ea En Er Ee Et Hd Hc.
+  apply checked_add16_some in Hc as [Hc Hb].
   destruct s; [contradiction| | |].
   - (* answer *)
     assert (Hnil : am_ns A = [] /\ am_ar A = []).
@@ -194,6 +197,7 @@ Proof.
     constructor; simpl; auto; try congruence.
     + rewrite N1, N2, !app_nil_r. apply Forall2_app; auto.
     + simpl in Hc. rewrite Hc, Ea, Ca, app_length. lia.
+    + simpl in Hb. rewrite Eq, En, Er. auto.
     + rewrite Es. auto.
   - (* authority *)
     assert (Hnil : am_ar A = []).
@@ -202,11 +206,13 @@ Proof.
     constructor; simpl; auto; try congruence.
     + rewrite Hnil, !app_nil_r. rewrite app_assoc. apply Forall2_app; auto.
     + simpl in Hc. rewrite Hc, En, Cn, app_length. lia.
+    + simpl in Hb. rewrite Eq, Ea, Er. auto.
     + rewrite Es. auto.
   - (* additional *)
     constructor; simpl; auto; try congruence.
     + rewrite !app_assoc. apply Forall2_app; auto. rewrite <- app_assoc. exact Fr.
     + simpl in Hc. rewrite Hc, Er, Cr, Ee, Et, app_length. lia.
+    + simpl in Hb. rewrite Eq, Ea, En. auto.
     + rewrite Es. auto.
 Qed.
 
@@ -385,7 +391,7 @@ Proof.
   assert (Ag : agree (w_cursor (d_w d)) (w_buf (d_w d)) (w_buf w3)).
   { eapply agree_trans; [apply X|]. eapply agree_le; [exact Ag13|lia]. }
   assert (Hcm : w_cursor (d_w d) <= w_cursor w3) by lia.
-  destruct HL as [[P1 P2 P3] HF]. pose proof HF as [Fq Fr Fm Cq Ca Cn Cr Fs].
+  destruct HL as [[P1 P2 P3] HF]. pose proof HF as [Fq Fr Fm Cq Ca Cn Cr [Bq [Ba [Bn Br]]] Fs].
   rewrite Esec in Fs. destruct Fs as [Fa [Fn Fra]]. rewrite Fa, Fn, Fra in Fr. simpl in Fr.
   inversion Fr as [Hnil|]; subst. rewrite <- Hnil in *. simpl in P2.
   set (q := mkLQ (mkNC (w_cursor (d_w d)) (w_cursor w1) n (exactf (w_mode (d_w d))) sh) qt qc).
@@ -422,7 +428,7 @@ Proof.
       * reflexivity.
       * intros s. rewrite Ht1, P3, qs_starts_app. simpl. rewrite !app_nil_r, in_app_iff.
         unfold chunk_starts. simpl. tauto.
-    + apply checked_add16_some in Enq.
+    + apply checked_add16_some in Enq as [Enq Hbq].
       constructor; simpl.
       * apply Forall2_app; auto. constructor; [|constructor].
         unfold q_desc, q. simpl. rewrite Fm, exactf_of. auto.
@@ -434,6 +440,9 @@ Proof.
       * rewrite (x_ar _ _ _ X3), (x_ar _ _ _ X2), Ear1, (x_ar _ _ _ X).
         rewrite (x_edns _ _ _ X3), (x_edns _ _ _ X2), Ee1, (x_edns _ _ _ X).
         rewrite (x_tsig _ _ _ X3), (x_tsig _ _ _ X2), Et1, (x_tsig _ _ _ X). exact Cr.
+      * rewrite (x_an _ _ _ X3), (x_an _ _ _ X2), Ean1, (x_an _ _ _ X).
+        rewrite (x_ns _ _ _ X3), (x_ns _ _ _ X2), Ens1, (x_ns _ _ _ X).
+        rewrite (x_ar _ _ _ X3), (x_ar _ _ _ X2), Ear1, (x_ar _ _ _ X). auto.
       * destruct Sd3 as [_ [_ [_ S3]]]. destruct Sd2 as [_ [_ [_ S2]]]. destruct Sd as [_ [_ [_ S1]]].
         rewrite S3, S2, Es1, S1, Esec. auto.
 Qed.
@@ -482,8 +491,9 @@ Proof.
         apply (rrs_starts_bound _ _ _ _ _ _ P2) in K; lia.
       * intros [K|[]]. split; auto.
         apply (qs_starts_bound _ _ _ _ _ _ P1) in K; lia.
-  - destruct HF as [Fq Fr Fm Cq Ca Cn Cr Fs]. constructor; simpl; auto.
-    destruct (w_edns (d_w d)); destruct (w_tsig (d_w d)); reflexivity.
+  - destruct HF as [Fq Fr Fm Cq Ca Cn Cr [Bq _] Fs]. constructor; simpl; auto.
+    + destruct (w_edns (d_w d)); destruct (w_tsig (d_w d)); reflexivity.
+    + split; auto. destruct (w_edns (d_w d)); destruct (w_tsig (d_w d)); simpl; lia.
 Qed.
 
 Lemma FLay_clear_upper w y A : FLay w y A -> FLay (clear_upper w) y A.
@@ -554,9 +564,9 @@ Proof.
     + exists L, y. unfold set_edns in E. destruct (w_edns (d_w d)) eqn:Ee; [discriminate|].
       destruct (w_avail (d_w d) <? w_cursor (d_w d) + opt_record_size); [discriminate|].
       destruct (checked_add16 (w_ar (d_w d)) 1) as [ar|] eqn:Ea; [|discriminate]. inversion E; subst w'.
-      apply checked_add16_some in Ea.
+      apply checked_add16_some in Ea as [Ea Hba].
       split; [apply (AInv_fields d g L); auto; apply (a_ts _ _ _ Hi)|].
-      apply (LInv_fields d y A L); auto. destruct HF as [Fq Fr Fm Cq Ca Cn Cr Fs].
+      apply (LInv_fields d y A L); auto. destruct HF as [Fq Fr Fm Cq Ca Cn Cr [Bq [Ba [Bn Br]]] Fs].
       constructor; simpl; auto. rewrite Ea, Cr, Ee. simpl. lia.
     + exists L, y. split; [apply AInv_obs; auto|eapply (LInv_obs d g); eauto].
     + unfold set_edns in E. destruct (w_edns (d_w d)); [discriminate|].
@@ -570,12 +580,12 @@ Proof.
     + exists L, y. unfold set_tsig in E. destruct (w_tsig (d_w d)) eqn:Ets; [discriminate|].
       destruct (w_avail (d_w d) <? _); [discriminate|].
       destruct (checked_add16 (w_ar (d_w d)) 1) as [ar|] eqn:Ea; [|discriminate]. inversion E; subst w'.
-      apply checked_add16_some in Ea.
+      apply checked_add16_some in Ea as [Ea Hba].
       split.
       * apply (AInv_fields d g L); auto. simpl. intros t Et. inversion Et; subst t.
         unfold tsig_wf; simpl. split; [apply wf_name_lower; auto|]. split; [apply wf_name_lower; auto|].
         split; auto. split; auto. split; auto. split; [apply wf_bytes_lower; auto|]. split; auto.
-      * apply (LInv_fields d y A L); auto. destruct HF as [Fq Fr Fm Cq Ca Cn Cr Fs].
+      * apply (LInv_fields d y A L); auto. destruct HF as [Fq Fr Fm Cq Ca Cn Cr [Bq [Ba [Bn Br]]] Fs].
         constructor; simpl; auto. rewrite Ea, Cr, Ets. simpl. lia.
     + exists L, y. split; [apply AInv_obs; auto|eapply (LInv_obs d g); eauto].
     + unfold set_tsig in E. destruct (w_tsig (d_w d)); [discriminate|].
@@ -610,4 +620,204 @@ Proof.
       * eapply FLay_fields; eauto.
   - (* template subsequent *) exists L, y. auto.
   - (* get *) destruct (getters_ok (d_w d) Hn) as [l ->]. simpl. exists L, y. auto.
+Qed.
+
+(* ---------------------------------------------------------------- finish *)
+
+Lemma PLay_app b (L : nat -> Prop) y rs c b2 (L2 : nat -> Prop) c2 rsn : PLay b L y rs c ->
+  agree c b b2 -> (forall s, L s -> L2 s) -> rs <= c ->
+  rrs_at b2 L2 rsn c c2 -> (forall s, L2 s <-> L s \/ In s (rrs_starts rsn)) ->
+  PLay b2 L2 (mkLay (y_qs y) (y_rrs y ++ rsn)) rs c2.
+Proof.
+  intros [P1 P2 P3] Ag G Hrs R T. constructor; simpl.
+  - eapply qs_mono; [apply G|]. eapply qs_append; eauto.
+  - eapply rrs_at_app; [|exact R]. eapply rrs_mono; [apply G|]. eapply rrs_append; eauto.
+  - intros s. rewrite T, P3, rrs_starts_app, !in_app_iff. tauto.
+Qed.
+
+Lemma add_rr_fits2 h owner ty cl ttl rd v w L names gq go gr :
+  NInv w (length (w_buf w)) L -> anch3 w L gq go gr -> vec_ok (w_buf w) (w_cursor w) L v names ->
+  wf_name owner -> wf_bytes rd -> hint_contract h owner w -> hint_in h w L ->
+  component_types cl ty = [] -> w_cursor w + length (nm_wire owner) + 10 + length rd <= w_avail w ->
+  exists v' w', add_rr h owner ty cl ttl rd v w = Ok (v', w') /\
+    exists L', grew w w' L L' /\ NInv w' (length (w_buf w')) L' /\ anch3 w' L' gq (Some owner) gr /\
+               ext (w_cursor w) w w' /\
+               exists r, rr_at (w_buf w') L' r /\ nc_pos (lr_owner r) = w_cursor w /\ lr_end r = w_cursor w' /\
+                         rr_desc r owner (exactf (w_mode w)) ty cl ttl (component_types cl ty) rd /\
+                         forall s, L' s <-> L s \/ In s (rr_starts r).
+Proof.
+  intros Hi A V Hwf Hrd Hh HhL Hct Hfit.
+  pose proof (add_rr_L h owner ty cl ttl rd v w L names gq go gr Hi A V Hwf Hrd Hh HhL) as P.
+  assert (Hpre : pre (w_cursor w) w) by (split; [lia|apply Hi]).
+  pose proof (frame_add_rr (w_cursor w) h owner ty cl ttl rd v w Hpre) as F.
+  destruct (add_rr h owner ty cl ttl rd v w) as [[v' w']|[e w']|]; simpl in P, F.
+  - exists v', w'. split; auto. destruct P as [L' [G' [Hi' [A' [_ [_ [Hc' [_ R]]]]]]]].
+    exists L'. rewrite Hct in A'. simpl in A'. auto 10.
+  - rewrite Hct in P. destruct P as [[_ K]|[_ K]]; [lia|congruence].
+  - contradiction.
+Qed.
+
+(* the pseudo-records finish appends, read off the writer's EDNS / TSIG fields *)
+Definition pseudo (w : writer) : list arr :=
+  (match w_edns w with
+   | Some e => [mkAR [] (exactf (w_mode w)) TYPE_OPT (e_udp e) (e_upper e * 16777216)%N []]
+   | None => [] end) ++
+  (match w_tsig w with
+   | Some t => [mkAR (t_key t) (exactf (w_mode w)) TYPE_TSIG qclass_any (ttl_from 0) (tsig_unsigned_rdata t)]
+   | None => [] end).
+
+Lemma w_write_slice w pos data w' : w_write w pos data = Ok w' ->
+  slice (w_buf w') pos (pos + length data) = data /\ (forall c, c <= pos -> agree c (w_buf w) (w_buf w')) /\
+  w_qd w' = w_qd w /\ w_an w' = w_an w /\ w_ns w' = w_ns w /\ w_ar w' = w_ar w.
+Proof.
+  intros E. apply w_write_inv in E as [b' [Hb ->]]. simpl. split; [eapply buf_write_data; eauto|].
+  split; auto. intros c Hc. eapply buf_write_agree; eauto.
+Qed.
+
+Theorem finish_ok2 d g y A L : AInv d g L -> LInv d y A L ->
+  exists wF LF rsP, finish (d_w d) = Ok (w_cursor wF, w_buf wF) /\
+    NInv wF (length (w_buf wF)) LF /\
+    PLay (w_buf wF) LF (mkLay (y_qs y) (y_rrs y ++ rsP)) (w_rr_start (d_w d)) (w_cursor wF) /\
+    Forall2 rr_desc2 rsP (pseudo (d_w d)) /\
+    slice (w_buf wF) 4 12 = be16 (w_qd (d_w d)) ++ be16 (w_an (d_w d)) ++ be16 (w_ns (d_w d)) ++ be16 (w_ar (d_w d)).
+Proof.
+  intros Hi HL. unfold finish, finish_gen.
+  set (c0 := w_cursor (d_w d)). set (h0 := length (w_buf (d_w d))).
+  destruct (hdr_write_ok2 d g y A L (N.to_nat QDCOUNT_START) (be16 (w_qd (d_w d))) Hi HL ltac:(cbv; lia))
+    as [w1 [E1 [H1 [HL1 [He1 Ht1]]]]].
+  rewrite E1. cbn [bind].
+  destruct (hdr_write_ok2 _ g y A L (N.to_nat ANCOUNT_START) (be16 (w_an w1)) H1 HL1 ltac:(cbv; lia))
+    as [w2 [E2 [H2 [HL2 [He2 Ht2]]]]].
+  cbn [d_w d_regs] in E2, He2, Ht2. rewrite E2. cbn [bind].
+  destruct (hdr_write_ok2 _ g y A L (N.to_nat NSCOUNT_START) (be16 (w_ns w2)) H2 HL2 ltac:(cbv; lia))
+    as [w3 [E3 [H3 [HL3 [He3 Ht3]]]]].
+  cbn [d_w d_regs] in E3, He3, Ht3. rewrite E3. cbn [bind].
+  destruct (hdr_write_ok2 _ g y A L (N.to_nat ARCOUNT_START) (be16 (w_ar w3)) H3 HL3 ltac:(cbv; lia))
+    as [w4 [E4 [H4 [HL4 [He4 Ht4]]]]].
+  cbn [d_w d_regs] in E4, He4, Ht4, H4, HL4. rewrite E4. cbn [bind].
+  destruct (w_write_slice _ _ _ _ E1) as [S1 [G1 [Q1 [A1 [N1 R1]]]]].
+  destruct (w_write_slice _ _ _ _ E2) as [S2 [G2 [Q2 [A2 [N2 R2]]]]].
+  destruct (w_write_slice _ _ _ _ E3) as [S3 [G3 [Q3 [A3 [N3 R3]]]]].
+  destruct (w_write_slice _ _ _ _ E4) as [S4 [G4 [Q4 [A4 [N4 R4]]]]].
+  change (N.to_nat QDCOUNT_START) with 4 in *. change (N.to_nat ANCOUNT_START) with 6 in *.
+  change (N.to_nat NSCOUNT_START) with 8 in *. change (N.to_nat ARCOUNT_START) with 10 in *.
+  unfold be16 in S1, S2, S3, S4. simpl length in S1, S2, S3, S4. simpl Nat.add in S1, S2, S3, S4.
+  assert (Hdr : slice (w_buf w4) 4 12 = be16 (w_qd (d_w d)) ++ be16 (w_an (d_w d)) ++ be16 (w_ns (d_w d)) ++ be16 (w_ar (d_w d))).
+  { rewrite (slice_app _ 4 6 12) by lia. rewrite (slice_app _ 6 8 12) by lia. rewrite (slice_app _ 8 10 12) by lia.
+    f_equal; [|f_equal; [|f_equal]].
+    - rewrite (agree_slice 6 _ _ 4 6 (G4 6 ltac:(lia))) by lia.
+      rewrite (agree_slice 6 _ _ 4 6 (G3 6 ltac:(lia))) by lia.
+      rewrite (agree_slice 6 _ _ 4 6 (G2 6 ltac:(lia))) by lia. exact S1.
+    - rewrite (agree_slice 8 _ _ 6 8 (G4 8 ltac:(lia))) by lia.
+      rewrite (agree_slice 8 _ _ 6 8 (G3 8 ltac:(lia))) by lia. rewrite A1 in S2. exact S2.
+    - rewrite (agree_slice 10 _ _ 8 10 (G4 10 ltac:(lia))) by lia. rewrite N2, N1 in S3. exact S3.
+    - rewrite R3, R2, R1 in S4. exact S4. }
+  assert (Hc : w_cursor w4 = c0).
+  { apply w_write_inv in E1 as [? [_ ->]]. apply w_write_inv in E2 as [? [_ ->]].
+    apply w_write_inv in E3 as [? [_ ->]]. apply w_write_inv in E4 as [? [_ ->]]. reflexivity. }
+  assert (Hrs : w_rr_start w4 = w_rr_start (d_w d)).
+  { apply w_write_inv in E1 as [? [_ ->]]. apply w_write_inv in E2 as [? [_ ->]].
+    apply w_write_inv in E3 as [? [_ ->]]. apply w_write_inv in E4 as [? [_ ->]]. reflexivity. }
+  assert (Hmd : w_mode w4 = w_mode (d_w d)).
+  { apply w_write_inv in E1 as [? [_ ->]]. apply w_write_inv in E2 as [? [_ ->]].
+    apply w_write_inv in E3 as [? [_ ->]]. apply w_write_inv in E4 as [? [_ ->]]. reflexivity. }
+  assert (Hed : w_edns w4 = w_edns (d_w d)) by congruence.
+  assert (Htg : w_tsig w4 = w_tsig (d_w d)) by congruence.
+  assert (Hts : forall t, w_tsig w4 = Some t -> tsig_wf t).
+  { intros t E. apply (a_ts _ _ _ H4); exact E. }
+  destruct HL4 as [HP4 _]. cbn [d_w] in HP4. rewrite Hrs, Hc in HP4.
+  pose proof (a_n _ _ _ H4) as Hn4. pose proof (a_ni _ _ _ H4) as Hi4.
+  pose proof (a_an _ _ _ H4) as A4'. cbn [d_w d_regs] in Hn4, Hi4, A4'.
+  unfold pseudo. rewrite <- Hed, <- Htg, <- Hmd.
+  clear E1 E2 E3 E4 H1 H2 H3 HL1 HL2 HL3 He1 He2 He3 He4 Ht1 Ht2 Ht3 Ht4 S1 S2 S3 S4 G1 G2 G3 G4
+        Q1 Q2 Q3 Q4 A1 A2 A3 A4 N1 N2 N3 N4 R1 R2 R3 R4 w1 w2 w3 Hed Htg Hmd.
+  (* OPT *)
+  assert (Hopt : exists w5 L5 rs5,
+    match w_edns w4 with
+    | Some e => unwrap_w (add_rr HNone [] TYPE_OPT (e_udp e) (e_upper e * 16777216)%N [] None
+                                 (set_avail w4 (w_avail w4 + opt_record_size)))
+    | None => Ok w4 end = Ok w5 /\
+    NInv w5 (length (w_buf w5)) L5 /\ (forall s, L s -> L5 s) /\
+    (exists go, anch3 w5 L5 (g_q g) go (g_r g)) /\
+    agree c0 (w_buf w4) (w_buf w5) /\ c0 <= w_cursor w5 /\ w_tsig w5 = w_tsig w4 /\ w_mode w5 = w_mode w4 /\
+    w_avail w5 + match w_tsig w5 with Some t => t_reserved t | None => 0 end <= length (w_buf w5) /\
+    rrs_at (w_buf w5) L5 rs5 c0 (w_cursor w5) /\ (forall s, L5 s <-> L s \/ In s (rrs_starts rs5)) /\
+    Forall2 rr_desc2 rs5
+      match w_edns w4 with
+      | Some e => [mkAR [] (exactf (w_mode w4)) TYPE_OPT (e_udp e) (e_upper e * 16777216)%N []]
+      | None => [] end).
+  { destruct Hn4 as [h1 h2 h3 h4 h5]. unfold resv in h4.
+    destruct (w_edns w4) as [e|] eqn:Ee.
+    - set (w4' := set_avail w4 (w_avail w4 + opt_record_size)).
+      assert (Hi4' : NInv w4' (length (w_buf w4')) L).
+      { unfold w4'. apply NInv_set_avail; auto; simpl; destruct (w_tsig w4); lia. }
+      destruct (add_rr_fits2 HNone [] TYPE_OPT (e_udp e) (e_upper e * 16777216)%N [] None w4' L []
+                  (g_q g) (g_o g) (g_r g) Hi4' A4' I)
+        as [v' [w5 [E5 [L5 [G5 [Hi5 [A5 [X5 [r5 [R5 [Rp5 [Re5 [Rd5 Rt5]]]]]]]]]]]]].
+      + split; [constructor|simpl; lia].
+      + constructor.
+      + exact I.
+      + exact I.
+      + reflexivity.
+      + unfold w4'. simpl. unfold opt_record_size. simpl. lia.
+      + rewrite E5. simpl. exists w5, L5, [r5]. split; auto. split; auto.
+        split; [apply G5|]. split; [eauto|].
+        pose proof (x_agree _ _ _ X5) as Ag. pose proof (x_cur _ _ _ X5) as Cu.
+        unfold w4' in Ag, Cu, Rp5. simpl in Ag, Cu, Rp5. rewrite Hc in Ag, Cu, Rp5.
+        split; [exact Ag|]. split; [exact Cu|]. split; [apply X5|]. split; [apply X5|].
+        split.
+        { rewrite (x_tsig _ _ _ X5), (x_av _ _ _ X5), (x_len _ _ _ X5). unfold w4'. simpl.
+          unfold opt_record_size in *. simpl in *. destruct (w_tsig w4); lia. }
+        split; [simpl; split; auto; split; auto; split; [lia|auto]|].
+        split; [intros s; rewrite Rt5; unfold rrs_starts; simpl; rewrite app_nil_r; tauto|].
+        constructor; [|constructor]. unfold rr_desc2. simpl. exact Rd5.
+    - exists w4, L, []. split; auto. split; auto. split; auto. split; [eauto|].
+      split; [apply agree_refl|]. split; [lia|]. split; auto. split; auto.
+      split; [destruct (w_tsig w4); lia|]. split; [simpl; lia|]. split; [intros s; simpl; tauto|constructor]. }
+  destruct Hopt as [w5 [L5 [rs5 [E5 [Hi5 [M5 [[go5 A5] [Ag5 [Hc5 [Ht5 [Hm5 [Hl5 [R5 [T5 D5]]]]]]]]]]]]]].
+  rewrite E5. cbn [bind].
+  assert (PL5 : PLay (w_buf w5) L5 (mkLay (y_qs y) (y_rrs y ++ rs5)) (w_rr_start (d_w d)) (w_cursor w5)).
+  { eapply (PLay_app (w_buf w4) L y _ c0); eauto. pose proof (a_n _ _ _ Hi) as []. unfold c0. lia. }
+  assert (Hdr5 : slice (w_buf w5) 4 12 = slice (w_buf w4) 4 12).
+  { apply (agree_slice c0); auto. pose proof (a_n _ _ _ Hi) as []. pose proof wconsts as [K _].
+    unfold c0. lia. }
+  destruct (w_tsig w5) as [t|] eqn:Et5.
+  - pose proof (Hts t ltac:(congruence)) as Twf. pose proof (octets_rdata t Twf) as Toct.
+    pose proof (tsig_rdata_length t Twf) as Tlen.
+    set (w5' := set_avail (set_tsig_f w5 None) (w_avail w5 + t_reserved t)).
+    pose proof (ni_nb _ _ _ Hi5) as [K1 K2].
+    assert (Hi5' : NInv w5' (length (w_buf w5')) L5).
+    { unfold w5'. apply NInv_set_avail; [apply NInv_clear_tsig; exact Hi5|simpl; lia|simpl; lia]. }
+    destruct (add_rr_fits2 HNone (t_key t) TYPE_TSIG qclass_any (ttl_from 0) (tsig_unsigned_rdata t) None w5' L5 []
+                (g_q g) go5 (g_r g) Hi5' A5 I)
+      as [v' [w6 [E6 [L6 [G6 [Hi6 [A6 [X6 [r6 [R6 [Rp6 [Re6 [Rd6 Rt6]]]]]]]]]]]]].
+    + apply Twf.
+    + exact Toct.
+    + exact I.
+    + exact I.
+    + reflexivity.
+    + unfold w5'. simpl. lia.
+    + rewrite E6. simpl. exists w6, L6, (rs5 ++ [r6]). split; auto. split; auto.
+      pose proof (x_agree _ _ _ X6) as Ag6. pose proof (x_cur _ _ _ X6) as Cu6.
+      unfold w5' in Ag6, Cu6, Rp6. simpl in Ag6, Cu6, Rp6.
+      split.
+      { rewrite app_assoc.
+        change (mkLay (y_qs y) ((y_rrs y ++ rs5) ++ [r6]))
+          with (mkLay (y_qs (mkLay (y_qs y) (y_rrs y ++ rs5))) (y_rrs (mkLay (y_qs y) (y_rrs y ++ rs5)) ++ [r6])).
+        eapply (PLay_app (w_buf w5) L5 _ _ (w_cursor w5)); eauto.
+        - apply G6.
+        - pose proof (a_n _ _ _ Hi) as []. unfold c0 in *. lia.
+        - simpl. split; auto. split; auto. split; [lia|auto].
+        - intros s. rewrite Rt6. unfold rrs_starts. simpl. rewrite app_nil_r. tauto. }
+      assert (Et4 : w_tsig w4 = Some t) by congruence.
+      rewrite Et4.
+      split.
+      { apply Forall2_app; auto. constructor; [|constructor]. unfold rr_desc2. simpl.
+        unfold w5' in Rd6. simpl in Rd6. rewrite Hm5 in Rd6. exact Rd6. }
+      transitivity (slice (w_buf w5) 4 12); [|rewrite Hdr5; exact Hdr].
+      apply (agree_slice (w_cursor w5)); auto.
+      pose proof (a_n _ _ _ Hi) as []. pose proof wconsts as [K _]. unfold c0 in *. lia.
+  - exists w5, L5, rs5. split; auto. split; auto. split; auto.
+    assert (Et4 : w_tsig w4 = None) by congruence.
+    rewrite Et4, app_nil_r. split; auto. rewrite Hdr5. exact Hdr.
 Qed.
